@@ -205,11 +205,16 @@ def table():
     d = os.path.join(ROOT, "mutants")
     rows = ["| prop | mutants drawn | killed by the repo's tests | pass the tests | killed by quick check | survived | triage of survivors |",
             "|---|---|---|---|---|---|---|"]
+    triage = json.load(open(os.path.join(d, "triage.json"))) if os.path.exists(os.path.join(d, "triage.json")) else {}
     for fn in sorted(os.listdir(d)):
-        if not fn.endswith(".json"):
+        if not fn.endswith(".json") or fn == "triage.json":
             continue
         r = json.load(open(os.path.join(d, fn)))
         ms = r["mutants"]
+        for m in ms:
+            k = "%s|%s|%d|%s" % (r["property"], os.path.basename(m["file"]), m["line"], m["op"])
+            if k in triage:
+                m["triage"] = triage[k]
         n = lambda s: sum(1 for m in ms if m["status"] == s)
         tri = "; ".join("%s:%d %s — %s" % (os.path.basename(m["file"]), m["line"], m["op"], m.get("triage", "?"))
                         for m in ms if m["status"] == "survived")
@@ -272,10 +277,17 @@ def main():
         if os.path.exists(outp):
             for m in json.load(open(outp))["mutants"]:
                 old[(m["file"], m["line"], m["op"])] = m
+        tri = {}
+        tf = os.path.join(ROOT, "mutants", "triage.json")
+        if os.path.exists(tf):
+            tri = json.load(open(tf))
         for m in results:
             o = old.get((m["file"], m["line"], m["op"]))
             if o and "triage" in o and m["status"] == "survived":
                 m["triage"] = o["triage"]
+            k = "%s|%s|%d|%s" % (pid, os.path.basename(m["file"]), m["line"], m["op"])
+            if k in tri and m["status"] == "survived":
+                m["triage"] = tri[k]
         json.dump({"property": pid, "seed": seed, "candidates": len(cands), "mutants": results},
                   open(outp, "w"), indent=1)
         c = lambda s: sum(1 for m in results if m["status"] == s)
